@@ -48,10 +48,35 @@ class TLCResult:
         return self.completed and self.violated is None
 
     def prints(self, tag):
-        """Tuples printed with PrintT(<<tag, ...>>) -> list of lists of python values"""
+        """Tuples printed with PrintT(<<tag, ...>>) -> list of lists of python values. TLC wraps long values over
+        several lines and several workers interleave their output: values are recovered by bracket matching."""
         res = []
-        for m in re.finditer(r'^<<"%s", (.*)>>$' % re.escape(tag), self.out, re.M):
-            res.append(parse_value('<<' + m.group(1) + '>>'))
+        out = self.out
+        for m in re.finditer(r'^<<\s*"%s",' % re.escape(tag), out, re.M):
+            i, depth, j = m.start(), 0, m.start()
+            instr = False
+            while j < len(out):
+                c = out[j]
+                if instr:
+                    if c == '\\':
+                        j += 1
+                    elif c == '"':
+                        instr = False
+                elif c == '"':
+                    instr = True
+                elif out.startswith('<<', j):
+                    depth += 1
+                    j += 1
+                elif out.startswith('>>', j):
+                    depth -= 1
+                    j += 1
+                    if depth == 0:
+                        break
+                j += 1
+            try:
+                res.append(parse_value(out[i:j + 1])[1:])
+            except ValueError:
+                continue
         return res
 
     def coverage(self):
